@@ -51,6 +51,10 @@ type Template struct {
 	Body    []*Node  `json:"body"`
 	Trailer []*Node  `json:"trailer"`
 	Fix44   string   `json:"fix44,omitempty"` // name of the tests/fix44 message this template describes
+	// TrailerCS: the trailer component also declares the CheckSum field itself, as the FIX
+	// dictionary's StandardTrailer does (last item). The library writes the real CheckSum
+	// after the trailer and never this item; a parse fills it with the received value.
+	TrailerCS bool `json:"trailer_cs,omitempty"`
 }
 
 // Installation routes of a value.
@@ -98,6 +102,9 @@ type Case struct {
 	Header  []*Pop   `json:"header"`
 	Body    []*Pop   `json:"body"`
 	Trailer []*Pop   `json:"trailer"`
+	// TrailerCSVal: with Tpl.TrailerCS, the text the trailer's own CheckSum item holds before
+	// serialization (what an earlier parse left there); it must not reach the wire
+	TrailerCSVal string `json:"trailer_cs_val,omitempty"`
 }
 
 func (v *Val) Float() float64 { return math.Float64frombits(v.F) }
